@@ -208,7 +208,8 @@ def river_cases(chk, n_cases):
         outs_raw = []
         for t in range(rng.randint(1, 8)):
             if style == "labels":
-                outs_raw.append(rng.choice(["cat", "dog", "bird", "fish"]))
+                # a fresh string object every time (labels that are equal but not identical, as run-time built labels are)
+                outs_raw.append("".join(list(rng.choice(["cat", "dog", "bird", "fish"]))))
             elif style == "numbers":
                 outs_raw.append(rng.choice([1, 2.5, True, np.float64(0.25), 3]))
             else:
@@ -217,16 +218,20 @@ def river_cases(chk, n_cases):
         w = RiverWrapper(lambda x: next(it))
         ids = explain.Ids()
         got = []
+        # the model behind the wrapper may change between calls (test-then-train): equal inputs, also consecutive ones, must be
+        # evaluated afresh each time
+        pool = rng.choice([1, 2, 3, 100])
+        xs_in = [{"f": rng.randrange(pool), "g": 0} for _ in outs_raw]
         try:
             if i % 3 == 0:
-                got = list(w([{"f": t} for t in range(len(outs_raw))]))      # list input: the list of canonical dicts, in order
+                got = list(w([dict(x) for x in xs_in]))      # list input: the list of canonical dicts, in order
             else:
-                for t in range(len(outs_raw)):
-                    got.append(w({"f": t}))
+                for x in xs_in:
+                    got.append(w(dict(x)))
         except Exception as ex:
             chk.violation("river-exception", f"RiverWrapper on predictions {outs_raw!r}: raised {core.err_kind(ex)}: {ex}", {"stream": [repr(o) for o in outs_raw]})
             continue
-        desc = {"river_stream": [repr(o) for o in outs_raw]}
+        desc = {"river_stream": [repr(o) for o in outs_raw], "inputs": [x["f"] for x in xs_in]}
         chk.case(desc, nontrivial=len(outs_raw) >= 2, sample=(i < 1))
         chk.stat(f"river:{style}")
         seen = []
